@@ -93,8 +93,8 @@ def pre_adm(mc: int, ops: List[Tuple[int, int, int]]) -> bool:
     pre=pre_adm,
     quick=dict(N=4, T=1, timeout=200, reach_timeout=60),
     thorough=dict(N=5, T=2, timeout=1400, reach_timeout=120),
-    nshards=dict(quick=18, thorough=54),
-    reach=["queued_timeout_599", "queued_started_after_release", "skipped_dead_entry", "two_active"],
+    nshards=dict(quick=54, thorough=54),
+    reach=["queued_timeout_599", "queued_started_after_release", "two_active"],
     units=["httpclient.AsyncHTTPClient.fetch", "simple_httpclient.SimpleAsyncHTTPClient.fetch_impl",
            "simple_httpclient.SimpleAsyncHTTPClient._process_queue",
            "simple_httpclient.SimpleAsyncHTTPClient._handle_request",
@@ -190,8 +190,6 @@ def h_admission(mc: int, ops: List[Tuple[int, int, int]]):
                     assert f.done() and f.exception() is not None and getattr(f.exception(), "code", 0) == 599, \
                         "fetch %d should have failed with a 599 queue timeout" % tag
                     assert tag not in client.started, "a request that timed out in the queue was started"
-                    if len(client.started) > 0 and client.started[-1] > tag:
-                        reached("skipped_dead_entry")
         # ---- drain: complete everything; every fetch must end up completed exactly once
         for _ in range(len(futs) + 1):
             for c in list(client.conns):
